@@ -10,6 +10,9 @@
  *   L <anything>                  layout line for the model driver, ignored here
  *   bits <file|mem> <first> <last>  > bits <status> <hex>
  *   fset|fclr <file|mem> <idx>    > fset|fclr <status> <idx>
+ *   fault <off> <0|1>             > fault ok        (with -DFMT_FAULT, C01) the next 16-byte fcache_pread() at file
+ *                                 offset <off> (an LKCD page descriptor) fails once: 0 = KDUMP_ERR_SYSTEM (EIO), 1 = KDUMP_ERR_BUSY
+ *   unfault                       > fault fired|pending    and disarms
  *   close
  *   tree                          > tree key=value|key=value|...   (whole attribute tree)
  * Every line also carries the C16 monitor verdict (status documented, message
@@ -20,6 +23,25 @@
 #include <unistd.h>
 #include <zlib.h>
 #include "hcommon.h"
+
+#ifdef FMT_FAULT
+/* one transient failure of a descriptor read, injected at the cross-TU call lkcd.c -> fcache_pread()
+ * (link with -Wl,--wrap=_kdumpfile_priv_fcache_pread) */
+#include <errno.h>
+struct fcache;
+kdump_status __real__kdumpfile_priv_fcache_pread(struct fcache *, void *, size_t, unsigned, off_t);
+static int fault_armed, fault_fired, fault_kind; static off_t fault_off;
+kdump_status __wrap__kdumpfile_priv_fcache_pread(struct fcache *fc, void *buf, size_t len, unsigned fidx, off_t pos)
+{
+	if (fault_armed && len == 16 && pos == fault_off) {
+		fault_armed = 0; fault_fired = 1;
+		if (fault_kind) return KDUMP_ERR_BUSY;
+		errno = EIO;
+		return KDUMP_ERR_SYSTEM;
+	}
+	return __real__kdumpfile_priv_fcache_pread(fc, buf, len, fidx, pos);
+}
+#endif
 
 #define MAXF 16
 static char paths[MAXF][512];
@@ -168,6 +190,14 @@ static void run_cmd(kdump_ctx_t *ctx, char *line)
 		free(buf);
 	} else if (!strncmp(line, "L ", 2) || !strncmp(line, "dd", 2) || !strncmp(line, "msb0", 4) || !strncmp(line, "elf ", 4) || !strncmp(line, "seg ", 4)) {
 		;       /* layout description for the model */
+#ifdef FMT_FAULT
+	} else if (sscanf(line, "fault %" SCNu64 " %u", &a, &as) == 2) {
+		fault_off = (off_t)a; fault_kind = as; fault_armed = 1; fault_fired = 0;
+		puts("> fault ok");
+	} else if (!strcmp(line, "unfault")) {
+		printf("> fault %s\n", fault_fired ? "fired" : "pending");
+		fault_armed = fault_fired = 0;
+#endif
 	} else if (!strcmp(line, "tree")) {
 		kdump_attr_ref_t root;
 		kdump_status st = kdump_attr_ref(ctx, NULL, &root);
